@@ -339,6 +339,12 @@ impl Selection {
         self.items.len()
     }
 
+    /// verification hook: rank and index of the item listed at position `idx` (the row that `draw` shows there)
+    #[cfg(feature = "verif")]
+    pub fn verif_item_at(&self, idx: usize) -> Option<([i32; 4], u32)> {
+        self.items.get(idx).map(|item| (item.rank, item.item_idx))
+    }
+
     fn calc_skip_width(&self, text: &str) -> usize {
         let skip = if self.skip_to_pattern.is_none() {
             0
